@@ -116,20 +116,29 @@ structure S1 where
   cv : Bool := false
   deriving Repr, DecidableEq
 
-def run1 : List T1 → S1 → Except Err S1
+/-- Which of the candidate repairs (fixes/F3.diff, fixes/F13.diff) the modelled source contains. The driver takes the
+flags from `Generated.IffSrc` (read off the C source on every run); the theorems are stated for every value. -/
+structure Fix where
+  f3 : Bool := false    -- the pre-scan stops (→ "non-matching parentheses") at a `)` that has no opening `(`
+  f13 : Bool := false   -- the pre-scan resets `last_not` at `(` and `)`
+  deriving Repr, DecidableEq
+
+def run1 (fx : Fix) : List T1 → S1 → Except Err S1
   | [], s => .ok s
-  | .lp :: r, s => run1 r { s with j := s.j + 1, cv := true }
-  | .rp :: r, s => run1 r { s with j := s.j - 1 }
-  | .sp :: r, s => run1 r { s with cv := true }
+  | .lp :: r, s => run1 fx r { s with j := s.j + 1, cv := true, lastNot := if fx.f13 then false else s.lastNot }
+  | .rp :: r, s =>
+    if fx.f3 && decide (s.j - 1 < 0) then .error .parens
+    else run1 fx r { s with j := s.j - 1, lastNot := if fx.f13 then false else s.lastNot }
+  | .sp :: r, s => run1 fx r { s with cv := true }
   | .uend :: _, _ => .error .unexpEnd
-  | .feat :: r, s => run1 r { s with lastNot := false, fSize := s.fSize + 1, exprSize := s.exprSize + 1 }
+  | .feat :: r, s => run1 fx r { s with lastNot := false, fSize := s.fSize + 1, exprSize := s.exprSize + 1 }
   | .not :: r, s =>
     -- `expr_size = expr_size - 2` followed by the common `expr_size++` (expr_size ≥ 1 whenever last_not is set)
-    if s.lastNot then run1 r { s with exprSize := s.exprSize - 1, lastNot := false }
-    else run1 r { s with lastNot := true, exprSize := s.exprSize + 1 }
+    if s.lastNot then run1 fx r { s with exprSize := s.exprSize - 1, lastNot := false }
+    else run1 fx r { s with lastNot := true, exprSize := s.exprSize + 1 }
   | .bin :: r, s =>
     if s.fExp ≠ s.fSize then .error .missingBefore
-    else run1 r { s with fExp := s.fExp + 1, lastNot := false, exprSize := s.exprSize + 1 }
+    else run1 fx r { s with fExp := s.fExp + 1, lastNot := false, exprSize := s.exprSize + 1 }
 
 /-! ## pass 2 -/
 
@@ -233,8 +242,9 @@ structure Compiled where
   deriving Repr, DecidableEq
 
 /-- `lys_compile_iffeature` after lexing: `t1` = what pass 1 sees, `t2` = what pass 2 sees (right to left). -/
-def compileToks (lookup : Bytes → Option Nat) (ver11 : Bool) (t1 : List T1) (t2 : List T2) : Except Err Compiled :=
-  match run1 t1 {} with
+def compileToks (fx : Fix) (lookup : Bytes → Option Nat) (ver11 : Bool) (t1 : List T1) (t2 : List T2) :
+    Except Err Compiled :=
+  match run1 fx t1 {} with
   | .error e => .error e
   | .ok s1 =>
     if s1.j ≠ 0 then .error .parens
@@ -252,8 +262,8 @@ def compileToks (lookup : Bytes → Option Nat) (ver11 : Bool) (t1 : List T1) (t
 
 /-- `lys_compile_iffeature`. `lookup` abstracts `lysp_feature_find(qname->mod, name, len, 1)`; `ver11` = the
 module's `yang-version` is 1.1. -/
-def compile (lookup : Bytes → Option Nat) (ver11 : Bool) (c : Bytes) : Except Err Compiled :=
-  compileToks lookup ver11 (lex1 false c) (lex2 c.reverse none false)
+def compile (fx : Fix) (lookup : Bytes → Option Nat) (ver11 : Bool) (c : Bytes) : Except Err Compiled :=
+  compileToks fx lookup ver11 (lex1 false c) (lex2 c.reverse none false)
 
 /-! ## evaluation -/
 
@@ -277,12 +287,12 @@ def evalIff (c : Compiled) (env : Nat → Bool) : Bool :=
   (evalAux (getop c.expr) (fun k => env (c.feats.getD k 0)) c.size 0 0).1
 
 /-- `lys_eval_iffeatures`: conjunction over the if-feature statements of a node (first compile error aborts). -/
-def evalIffeatures (lookup : Bytes → Option Nat) (ver11 : Bool) (env : Nat → Bool) : List Bytes → Except Err Bool
+def evalIffeatures (fx : Fix) (lookup : Bytes → Option Nat) (ver11 : Bool) (env : Nat → Bool) : List Bytes → Except Err Bool
   | [] => .ok true
   | c :: rest =>
-    match compile lookup ver11 c with
+    match compile fx lookup ver11 c with
     | .error e => .error e
-    | .ok k => if evalIff k env then evalIffeatures lookup ver11 env rest else .ok false
+    | .ok k => if evalIff k env then evalIffeatures fx lookup ver11 env rest else .ok false
 
 /-! ## `lysp_feature_find` for the driver: modules are `(prefix, feature names)`, the first one is the local module;
 feature ids number all features of all modules consecutively. -/
